@@ -314,6 +314,9 @@ def pattern_cases(rng, tier):
             f.insert(rng.randrange(len(f) + 1), ["region", v])
             q.update(hist=hist, kp=KPS[k % len(KPS)], filter=f)
             out.append(q)
+    return out
+
+
 FAILED_BASE = 4500     # ordinals of recordings none of whose saves succeeded (harness/impl/lookup_driver.py)
 
 
